@@ -712,6 +712,11 @@ func (s *SSEServer) handleNotificationMessage(ctx context.Context, rawMessage js
 
 // handleNotification processes notifications (can be extended for different notification types).
 func (s *SSEServer) handleNotification(ctx context.Context, notification *JSONRPCNotification, session *sseSession) error {
+	// The handshake is complete once the client says so: from now on notifications may be sent to it.
+	if notification.Method == MethodNotificationsInitialized && session != nil {
+		session.Initialize()
+	}
+
 	// Check if there's a registered handler for this notification method.
 	s.notificationMu.RLock()
 	handler, exists := s.notificationHandlers[notification.Method]
